@@ -158,19 +158,33 @@ def case_w2(seed: int) -> dict:
         template = base_dir / 'template'
         pkg = lc.write_project(template / 'src', 'pa', '1', spec)
         asset.Directory(posix.Registry(template / 'registry', staging=template / 'staging')).get('pa').put(pkg)
-        for backend in BACKENDS[:4]:  # pyfunc does not train; its apply-mode half is W1 and the C04 serve action
+        modes = ('apply', 'train', 'train', 'apply')  # cold-start apply (nothing trained yet), two trainings, apply
+        for backend in BACKENDS[:5]:
             root = base_dir / backend
-            shutil.copytree(template, root)
-            registry = posix.Registry(root / 'registry', staging=root / 'staging')
+            if backend == 'pyfunc':
+                # pyfunc can not train: it applies (cold, then on the generations the reference run committed)
+                shutil.copytree(template, base_dir / 'pyfunc-cold')
+                shutil.copytree(base_dir / 'reference', root)
+            else:
+                shutil.copytree(template, root)
             pool = None
             err = None
             events = []
             try:
-                for step, mode in enumerate(('train', 'train', 'apply')):
+                for step, mode in enumerate(modes):
                     os.environ['LC_TOKEN'] = str(step + 1)
+                    where = root
+                    if backend == 'pyfunc':
+                        if mode == 'train':
+                            events.append(None)
+                            continue
+                        where = base_dir / 'pyfunc-cold' if step == 0 else root
+                    registry = posix.Registry(where / 'registry', staging=where / 'staging')
                     instance = asset.Instance('pa', '1', None, asset.Directory(registry))
                     if backend == 'reference':
                         runner = RefRunner(instance, lc.Feed(), lc.Sink())
+                    elif backend == 'pyfunc':
+                        runner = pyfunc.Runner(instance, lc.Feed(), lc.Sink())
                     else:
                         scheduler = backend.split('-', 1)[1]
                         kwargs = {'scheduler': scheduler}
@@ -181,17 +195,20 @@ def case_w2(seed: int) -> dict:
                             kwargs.update(pool=pool, num_workers=nworkers)
                         runner = daskrun.Runner(instance, lc.Feed(), lc.Sink(), **kwargs)
                     getattr(runner, mode)()
+                    lines = []
                     if os.path.exists(logfile):
                         with open(logfile, encoding='utf-8') as handle:
-                            events.append(sorted(set(handle.read().splitlines())))  # dask computes identical pure tasks once
+                            lines = sorted(set(handle.read().splitlines()))  # dask computes identical pure tasks once
                         os.unlink(logfile)
+                    events.append(lines)
             except Exception as exc:  # pylint: disable=broad-except
                 err = f'{type(exc).__name__}: {exc}'[:300]
             finally:
                 dask.local.Queue = REAL_QUEUE
                 tables.SimQueue.pool = None
                 dask.config.set(pool=None, num_workers=None, scheduler='synchronous')
-            results[backend] = {'error': err, 'events': events, 'registry': None if err else registry_dump(root)}
+            results[backend] = {'error': err, 'events': events,
+                                'registry': None if err or backend == 'pyfunc' else registry_dump(root)}
     finally:
         shutil.rmtree(base_dir, ignore_errors=True)
     return {'kind': 'w2', 'spec': spec, 'pipeline': lc.render(spec), 'nworkers': nworkers, 'results': results,
@@ -227,7 +244,9 @@ def judge(case: dict) -> list[dict]:
                 out.append({'class': 'task-not-run-exactly-once', 'backend': backend,
                             'detail': f'{backend} executed {res["exec"]} - reference {ref["exec"]}'})
         else:
-            if res['events'] != ref['events']:
+            mine_events = [e if e is not None else r for e, r in zip(res['events'], ref['events'])]
+            if mine_events != ref['events']:
+                res = {**res, 'events': mine_events}
                 diff = next((i for i, (a, b) in enumerate(zip(res['events'], ref['events'])) if a != b), 0)
                 mine = res['events'][diff] if diff < len(res['events']) else []
                 theirs = ref['events'][diff] if diff < len(ref['events']) else []
@@ -235,7 +254,7 @@ def judge(case: dict) -> list[dict]:
                             'detail': f'{backend}: what the actors saw differs from the reference in step {diff}: only '
                                       f'here {[e for e in mine if e not in theirs][:3]} only reference '
                                       f'{[e for e in theirs if e not in mine][:3]}'})
-            elif res['registry'] != ref['registry']:
+            elif res['registry'] is not None and res['registry'] != ref['registry']:
                 out.append({'class': 'different-persisted-states', 'backend': backend,
                             'detail': f'{backend}: registry content {str(res["registry"])[:160]} - reference '
                                       f'{str(ref["registry"])[:160]}'})
